@@ -444,10 +444,11 @@ class ChunkRelativeFrames(Case):
     props = ("C07", "C05")
     func = CDS + ".chunk_relative_frames"
 
-    def __init__(self, n):
-        self.n = n
-        self.tier = "thorough" if n >= 2 else "quick"
-        self.name = f"CDSInterval.chunk_relative_frames[{n} exons]"
+    def __init__(self, n, stranded=False):
+        self.n, self.stranded = n, stranded
+        self.tier = "thorough" if n >= 3 else "quick"
+        self.shard_depth = 4 if n >= 2 else 0
+        self.name = f"CDSInterval.chunk_relative_frames[{n} exons{', chunk on either strand' if stranded else ''}]"
         self.call = ("([x.value for x in cds.chunk_relative_frames], [x.value for x in "
                      "CDSInterval.construct_frames_from_location(cds.chunk_relative_location, CDSFrame(fexp))])")
         self.ensures = {"continues-chromosome-reading-frame": lambda i, r: And(
@@ -462,7 +463,11 @@ class ChunkRelativeFrames(Case):
         if S.mode == "sym":
             f = S.e.enum_concretize(f)
         fv = f.value if not hasattr(f, "members") else f.members[f.idx][1]
-        cp, cs, ce = chunk_parent(S)
+        if self.stranded:
+            from .c04_liftover import chunk_parent_stranded
+            cp, cs, ce, _minus = chunk_parent_stranded(S)
+        else:
+            cp, cs, ce = chunk_parent(S)
         plus = _is_plus(strand)
         S.assume(Or(*[Max(starts[k], cs) < Min(ends[k], ce) for k in range(n)]))  # some CDS base on the chunk
         frames = S.fn(CDS + ".construct_frames_from_location")
@@ -480,12 +485,13 @@ class ChunkRelativeFrames(Case):
         d.update(strand=rng.choice(["PLUS", "MINUS"]), frame=rng.choice(["ZERO", "ONE", "TWO"]))
         cs = rng.randint(0, d["cds_ends"][-1] - 1)
         ce = rng.randint(cs + 1, d["cds_ends"][-1] + 2)
-        d.update(chunk_start=cs, chunk_end=ce, chunk_seq="".join(rng.choice("ACGT") for _ in range(ce - cs)))
+        d.update(chunk_start=cs, chunk_end=ce, chunk_seq="".join(rng.choice("ACGT") for _ in range(ce - cs)),
+                 chunk_strand=rng.choice(["PLUS", "MINUS"]))
         return d
 
 
 CASES = [ScanWindowsSingle(3), ScanWindowsSingle(1), PrepSingleExon(False), PrepSingleExon(True), PrepTwoExons(),
-         PrepExons(3), ChunkRelativeFrames(1), ChunkRelativeFrames(2), ChunkRelativeFrames(3),
+         PrepExons(3), ChunkRelativeFrames(1, True), ChunkRelativeFrames(2, True), ChunkRelativeFrames(3, True),
          ConstructFrames(1), ConstructFrames(2), ConstructFrames(3), CodonsSingleExonChunk()]
 
 
